@@ -14,6 +14,7 @@ HARNESSES = {
     'remover': dict(sources=['src/h_remover.cpp']),
     'heter': dict(sources=['src/h_heter.cpp']),
     'filter': dict(sources=['src/h_filter.cpp']),
+    'config': dict(sources=['src/h_config.cpp']),
     'anyid': dict(sources=['src/h_anyid.cpp']),
     'anydata': dict(sources=['src/h_anydata.cpp', 'src/h_anydata_m1.cpp', 'src/h_anydata_m24.cpp', 'src/h_anydata_m32.cpp', 'src/h_anydata_m64.cpp']),
 }
@@ -260,6 +261,20 @@ prop('C09', 'fault_enumeration',
      q, t,
      technique='property-based testing with exhaustive single-fault injection per generated (state, operation) pair: exceptions from user code and operator new, model-based oracle',
      level_text='Fault enumeration: for generated (state, operation) pairs every fault position k is injected in turn and the outcome compared with the reference model; held = held for every injected position of every generated pair.')
+
+q = dict(stages=[dict(engine='replay', harness='config'), dict(engine='rc', harness='config', procs=8, cases=1500, timeout=900),
+                 dict(engine='config-matrix', harness='config')])
+t = dict(stages=[dict(engine='replay', harness='config'), dict(engine='rc', harness='config', procs=16, cases=40000, timeout=3600),
+                 dict(engine='config-matrix', harness='config')])
+prop('C20', 'exploration',
+     'rapidcheck-generated flat programs (listener changes, dispatch and enqueue with lvalue and temporary keys/arguments, process/processOne/processIf/takeEvent/peekEvent/emptyQueue/waitFor(0), copy- and move-construction of the '
+     'queue over pre-filled placement storage followed by an immediate emptyQueue/waitFor) interpreted for 8 policy instantiations (Threading Multiple/SpinLock/Single x Map auto/std::map/unordered_map/user map x Callback '
+     'std::function/custom functor x ArgumentPassing auto/include/exclude x key int/std::string) and compared with a built-in reference model; the first programs of the run are dumped and re-run by stand-alone builds of the '
+     'same C++11-clean source with g++ and clang++, -O0 and -O2, -std=c++11..20 (quick: 4 builds, thorough: 16) with two storage fill patterns; non-trivial = a temporary key/argument or an object constructed over non-zero storage and queried before any write',
+     COMMON_ASSUME + ['"any conforming compiler" is g++ 12 and clang++ 14; sanitizer builds are not part of the matrix (the generating build is clang++ ASan/UBSan)',
+                      'operations a policy cannot compile (waitFor with SingleThreading or SpinLock + std::condition_variable) are skipped for that instantiation in both model and implementation'],
+     q, t,
+     technique='differential + model-based property testing: generated programs x policy instantiations x compiler/optimisation/standard builds, all compared with one reference model')
 
 
 _ALL = ['C%02d' % i for i in range(1, 21)]
